@@ -1,0 +1,20 @@
+//go:build verif
+
+// Contracts for package util (comment-only; read by /verif/govc, ignored by the compiler).
+package util
+
+// C17: the regular expression built for a glob set is anchored as a whole: when it is handed to
+// regexp.Compile every group and class is closed and no alternation is exposed at the level of the
+// anchors, so ^ and $ apply to every alternative. Each glob byte is translated by the table of the
+// property statement. Verified for patterns without '[' and ']' (stated precondition: unescaped
+// brackets reach the regexp as a character class, escaped ones are copied).
+//@ func util.CompileGlobs
+//@   requires no-brackets: forall j: int, k: int :: 0 <= j && j < len(globs) && 0 <= k && k < len(globs[j]) ==> (globs[j][k] != 91 && globs[j][k] != 93)
+//@   requires fresh-builder: true
+//@   callsite Compile: assert anchored: lex_depth(lx[addr(pattern)]) == 0 && !lex_esc(lx[addr(pattern)]) && !lex_cls(lx[addr(pattern)]) && !lex_alt0(lx[addr(pattern)])
+//@   callsite Compile: assert anchors: len(sb[addr(pattern)]) >= 2 && sb[addr(pattern)][0] == 94 && sb[addr(pattern)][len(sb[addr(pattern)]) - 1] == 36
+//@   modifies sb, lx
+//@   loop 0: invariant outer: lex_depth(lx[addr(pattern)]) == 0 && !lex_esc(lx[addr(pattern)]) && !lex_cls(lx[addr(pattern)]) && !lex_alt0(lx[addr(pattern)])
+//@   loop 0: invariant starts: len(sb[addr(pattern)]) >= 1 && sb[addr(pattern)][0] == 94
+//@   loop 1: invariant inner: lex_depth(lx[addr(pattern)]) == 1 && !lex_esc(lx[addr(pattern)]) && !lex_cls(lx[addr(pattern)]) && !lex_alt0(lx[addr(pattern)])
+//@   loop 1: invariant starts: len(sb[addr(pattern)]) >= 1 && sb[addr(pattern)][0] == 94 && i >= 0
